@@ -573,7 +573,6 @@ type pppoeLoop struct {
 	cancel context.CancelFunc
 	mu     sync.Mutex
 	sent   [][]byte
-	base   int
 	nextM  int
 	live   map[string][]uint16 // state name -> session ids (refreshed from the server)
 	sys    [][]byte
@@ -581,6 +580,7 @@ type pppoeLoop struct {
 	full   bool
 	crashed chan *feedPanic
 	dead    *feedPanic
+	topup   int
 }
 
 func (l *pppoeLoop) clientMAC() net.HardwareAddr {
@@ -620,7 +620,7 @@ func openPPPoELoop(state string, ev *env) (*pppoeLoop, error) {
 			return nil
 		},
 	}
-	srv, err := pppoe.VerifC09NewServer(pppoe.ServerConfig{Interface: "verif0", ACName: "verif-ac", ServiceName: "internet", ServerIP: "10.10.0.1", ClientPool: "10.10.0.0/20", PoolGateway: "10.10.0.1", PrimaryDNS: "8.8.8.8", SecondaryDNS: "8.8.4.4"},
+	srv, err := pppoe.VerifC09NewServer(pppoe.ServerConfig{Interface: "verif0", ACName: "verif-ac", ServiceName: "internet", ServerIP: "10.10.0.1", ClientPool: "10.10.0.0/24", PoolGateway: "10.10.0.1", PrimaryDNS: "8.8.8.8", SecondaryDNS: "8.8.4.4"},
 		zap.NewNop(), &net.Interface{Index: 9, Name: "verif0", HardwareAddr: srvMAC, MTU: 1500}, sock)
 	if err != nil {
 		return nil, err
@@ -637,7 +637,6 @@ func openPPPoELoop(state string, ev *env) (*pppoeLoop, error) {
 	case <-time.After(5 * time.Second):
 		return nil, fmt.Errorf("receive loop did not start")
 	}
-	l.base = runtime.NumGoroutine()
 	if err := l.prime(); err != nil {
 		return nil, err
 	}
@@ -645,11 +644,11 @@ func openPPPoELoop(state string, ev *env) (*pppoeLoop, error) {
 		if err := l.fill(); err != nil {
 			return nil, err
 		}
-		l.base = runtime.NumGoroutine()
-		for i := 0; i < 200 && runtime.NumGoroutine() > 8; i++ { // let the LCP negotiation goroutines drain
-			time.Sleep(10 * time.Millisecond)
-			l.base = runtime.NumGoroutine()
-		}
+		time.Sleep(200 * time.Millisecond) // let the LCP negotiation goroutines drain
+	}
+	if c, ok := sysCache["pppoe-loop"]; ok {
+		l.sys = c
+		return l, nil
 	}
 	seeds := l.samples(rand.New(rand.NewPCG(1, 2)))
 	for _, s := range seeds {
@@ -657,6 +656,7 @@ func openPPPoELoop(state string, ev *env) (*pppoeLoop, error) {
 	}
 	rng := rand.New(rand.NewPCG(0xc09, 77))
 	rng.Shuffle(len(l.sys), func(i, j int) { l.sys[i], l.sys[j] = l.sys[j], l.sys[i] })
+	sysCache["pppoe-loop"] = l.sys
 	return l, nil
 }
 
@@ -672,6 +672,7 @@ func (l *pppoeLoop) push(f []byte) [][]byte {
 	if l.dead != nil {
 		return nil
 	}
+	base := runtime.NumGoroutine()
 	l.in <- f
 	select {
 	case <-l.idle:
@@ -679,13 +680,7 @@ func (l *pppoeLoop) push(f []byte) [][]byte {
 		l.dead = p
 		return nil
 	}
-	for i := 0; runtime.NumGoroutine() > l.base && i < 20000; i++ {
-		if i < 100 {
-			runtime.Gosched()
-		} else {
-			time.Sleep(50 * time.Microsecond)
-		}
-	}
+	settle(base)
 	l.mu.Lock()
 	out := append([][]byte(nil), l.sent...)
 	l.mu.Unlock()
@@ -787,16 +782,16 @@ func (l *pppoeLoop) prime() error {
 func (l *pppoeLoop) fill() error {
 	cookie := bytes.Repeat([]byte{0x5a}, 16)
 	for i := 0; i < 70000; i++ {
-		if i%4096 == 0 && len(l.srv.VerifC09SessionStates()) >= 65535 {
+		if i%4096 == 0 && l.srv.GetSessionCount() >= 65535 {
 			break
 		}
 		mac := net.HardwareAddr{0x02, 0xee, 0, byte(i >> 16), byte(i >> 8), byte(i)}
 		l.auxFast(discFrame(mac, pppoe.CodePADR, 0, []pppoe.Tag{{Type: pppoe.TagServiceName, Value: []byte("internet")}, {Type: pppoe.TagACCookie, Value: cookie}}))
-		if i >= 65530 && len(l.srv.VerifC09SessionStates()) >= 65535 {
+		if i >= 65530 && l.srv.GetSessionCount() >= 65535 {
 			break
 		}
 	}
-	if n := len(l.srv.VerifC09SessionStates()); n < 65535 {
+	if n := l.srv.GetSessionCount(); n < 65535 {
 		return fmt.Errorf("session table holds %d sessions after the fill", n)
 	}
 	l.full = true
@@ -886,35 +881,44 @@ func (l *pppoeLoop) Feed(in []byte) outcome {
 	if l.dead != nil { // a well-formed priming frame took the loop down
 		return outcome{pan: l.dead}
 	}
-	before := l.srv.VerifC09SessionStates()
+	var sid uint16
+	if len(in) >= 18 {
+		sid = binary.BigEndian.Uint16(in[16:18])
+	}
+	n0, st0 := l.srv.GetSessionCount(), l.srv.VerifC09SessionState(sid)
 	out := l.push(in)
 	if l.dead != nil {
 		return outcome{pan: l.dead}
 	}
-	after := l.srv.VerifC09SessionStates()
+	n1, st1 := l.srv.GetSessionCount(), l.srv.VerifC09SessionState(sid)
 	o := outcome{class: "dropped"}
 	if len(out) > 0 {
 		o.class = "replied"
 		o.nontriv = true
 	}
-	changed := len(before) != len(after)
-	for id, st := range after {
-		if before[id] != st {
-			changed = true
-		}
-	}
-	if changed {
+	if n0 != n1 || st0 != st1 {
 		o.nontriv = true
 		o.class += "+state"
-		l.refresh()
+		if l.full {
+			// keep the table full with well-formed PADRs
+			for i := 0; l.srv.GetSessionCount() < 65535 && i < 64 && l.dead == nil; i++ {
+				l.topup++
+				mac := net.HardwareAddr{0x02, 0xef, 0, byte(l.topup >> 16), byte(l.topup >> 8), byte(l.topup)}
+				l.auxFast(discFrame(mac, pppoe.CodePADR, 0, []pppoe.Tag{{Type: pppoe.TagServiceName, Value: []byte("internet")}, {Type: pppoe.TagACCookie, Value: bytes.Repeat([]byte{0x5a}, 16)}}))
+			}
+		} else {
+			l.refresh()
+		}
 	}
 	kind := "short"
 	if len(in) >= 20 {
 		et := binary.BigEndian.Uint16(in[12:14])
-		sid := binary.BigEndian.Uint16(in[16:18])
-		st := before[sid]
+		st := st0
 		if st == "" {
 			st = "no-session"
+		}
+		if l.full {
+			st += "/table-full"
 		}
 		switch et {
 		case pppoe.EtherTypePPPoEDiscovery:
@@ -976,7 +980,7 @@ func (l *pppoeLoop) ScaleInput(n int) []byte {
 
 func pppoeLoopEntry() *entry {
 	return &entry{
-		name: "pppoe.Server.receiveLoop", states: []string{"sessions-in-every-phase", "session-table-full"}, quick: 24000, thorough: 600000, chunk: 1500, cost: 12, scale: true,
+		name: "pppoe.Server.receiveLoop", states: []string{"sessions-in-every-phase", "session-table-full"}, quick: 24000, thorough: 600000, chunk: 1500, cost: 12, scale: true, scaleIn: []string{"sessions-in-every-phase"},
 		quota: func(state string, thorough bool) int {
 			if state == "session-table-full" { // filling the table costs 65 535 exchanges per child
 				if thorough {
